@@ -54,7 +54,13 @@ def check_perm(case):
     t = wires(cls, n, case["distinct"])
     dom = specs.ty(cls, t)
     D = diagram_cls(cls)
-    d = D.permutation(list(perm), dom)
+    handed = list(perm)
+    d = D.permutation(handed, dom)
+    require(handed == perm, "C10:permutation-mutates-its-argument",
+            lambda: "{} became {}".format(perm, handed))
+    again = D.permutation(handed, dom)
+    require(again == d and specs.dkey(again) == specs.dkey(d),
+            "C10:permutation-mutates-its-argument", str(d))
     specs.well_typed(d, "permutation")
     require(specs.tkey(d.dom) == specs.skey_ty(t), "C10:dom", str(d))
     where = track(d, n, cls)
